@@ -7,6 +7,7 @@ import ParryModel.C09.Theorems10
 import ParryModel.C09.Theorems11
 import ParryModel.C09.Theorems12
 import ParryModel.C09.Theorems13
+import ParryModel.C09.Theorems14
 /-!
 # C09 property theorems (index).
 * `Theorems1` — interval enclosures (`+ - neg *`, enclose, intersect), box algebra, `scaled`, `transform_by`, composites
@@ -22,5 +23,6 @@ import ParryModel.C09.Theorems13
 * `Theorems10` — Capsule / Triangle / Segment bounding spheres, `BoundingSphere::{transform_by, loosened, merged}`
 * `Theorems11` — `SimdAabb::{scaled, loosen, dilate_by_factor, contains_local_point, distance_to_local_point, to_merged_aabb}` lanes, `Aabb::tightened`
 * `Theorems12` — tightness: `Aabb::transform_by` is exact; Cuboid, Ball, Capsule, Triangle boxes touch the posed shape on every face
-* `Theorems13` — `SimdAabb::transform_by` lanes (contain, tight), `BoundingSphere::tightened`
+* `Theorems13` — `SimdAabb::transform_by` lanes (contain, tight), `BoundingSphere::tightened`, histories of `scaled` on TriMesh / Polyline / HeightField
+* `Theorems14` — the sine satisfies the `IntervalFunction` contract over ℝ (mean value theorem): `find_root_intervals` covers every multiple of π
 -/
